@@ -30,6 +30,15 @@ package main
 //              keeps its Buf array from its previous life): 0 nil, 1 37 bytes in use with capacity 37, 2 empty with capacity
 //              4096, 3 1000 bytes in use with capacity 1024
 // which=4/5  = which 2 with allowed_pod_labels / allowed_node_labels set: 4 [app absent] / [zone], 5 [nope] / [nope]
+// which=7/8  = which 2 with the pipeline setting source_name_meta_field = k8s_pod (7) / a field no event has (8): every label
+//              of IncMaxEventSizeExceeded must be the pod name / the source name (panic code 8 otherwise)
+//            style bits 4-6 (style>>4 & 7): 1..4 = the event lacks k8s_namespace / k8s_pod / k8s_container_id / k8s_container
+//              (Fatalf = panic 3 on that event unless only_node)
+// which=1    template code t: t%3 = the template, (first code)/3 = how the config is written: 0 `templates`, 1 the deprecated
+//              single `template` field, 2 both (the list wins)
+// which=9    = which 2, judged by k_spec_t: after a time-out the action starts afresh (Model/K8sMultiline.v)
+// which=6    the real join / join_template plugin inside a real pipeline: pipejoin.go
+// which=50   pipeline families with scripted actions (pipedrv); 51 = the same with a split action left of a holding action
 
 import (
 	"fmt"
@@ -64,6 +73,7 @@ type c15Ctl struct {
 	field []string
 	emits []hx.Sx
 	incs  int
+	lvs   []string // label values of the IncMaxEventSizeExceeded calls
 }
 
 func (c *c15Ctl) Propagate(e *pipeline.Event) {
@@ -76,7 +86,10 @@ func (c *c15Ctl) Propagate(e *pipeline.Event) {
 func (c *c15Ctl) Spawn(*pipeline.Event, []*insaneJSON.Node) {
 	c.emits = append(c.emits, hx.L(hx.I(-2), hx.S("SPAWN")))
 }
-func (c *c15Ctl) IncMaxEventSizeExceeded(...string) { c.incs++ }
+func (c *c15Ctl) IncMaxEventSizeExceeded(lvs ...string) {
+	c.incs++
+	c.lvs = append(c.lvs, strings.Join(lvs, "|"))
+}
 
 func c15Params(ctl pipeline.ActionPluginController, st *pipeline.Settings) *pipeline.ActionPluginParams {
 	// Panicf panics even with a no-op core; Fatalf would exit the process: turn it into a panic
@@ -96,6 +109,7 @@ var c15TplNames = []string{"go_panic", "cs_exception", "go_data_race"}
 
 type c15Doer interface {
 	Do(*pipeline.Event) pipeline.ActionResult
+	Stop()
 }
 
 func c15JoinPanic(msg string) int {
@@ -141,11 +155,21 @@ func c15ExecJoin(which int, cs hx.Sx) hx.Sx {
 		p.Start(config, c15Params(ctl, &pipeline.Settings{AvgEventSize: 16}))
 		pl = p
 	} else {
+		// template code t: t%3 names the template; the FIRST code's t/3 says how the configuration is written:
+		// 0 `templates` list, 1 the deprecated single `template` field (one template only), 2 both fields set (the list wins)
 		var names []string
 		for _, t := range extra {
 			names = append(names, c15TplNames[int(hx.Int(t))%len(c15TplNames)])
 		}
 		config := &join_template.Config{Field: "f", MaxEventSize: max, Templates: names}
+		if len(extra) > 0 {
+			switch int(hx.Int(extra[0])) / len(c15TplNames) {
+			case 1:
+				config.Template, config.Templates = names[0], nil
+			case 2:
+				config.Template = c15TplNames[(int(hx.Int(extra[0]))+1)%len(c15TplNames)] // another one: it must be ignored
+			}
+		}
 		test.NewConfig(config, nil)
 		p := &join_template.Plugin{}
 		p.Start(config, c15Params(ctl, &pipeline.Settings{AvgEventSize: 16}))
@@ -165,6 +189,7 @@ func c15ExecJoin(which int, cs hx.Sx) hx.Sx {
 	}()
 	var steps []hx.Sx
 	pcode := 0
+	defer func() { _ = catchMsg(pl.Stop) }()
 	for i, ev := range hx.Items(it[1]) {
 		var e *pipeline.Event
 		if hx.IsInt(ev) {
@@ -325,8 +350,18 @@ func c15ExecK8s(which int, cs hx.Sx) hx.Sx {
 	case 5:
 		kc.AllowedPodLabels, kc.AllowedNodeLabels = []string{"nope"}, []string{"nope"}
 	}
+	// which 7 / 8: source_name_meta_field names a field the event has (k8s_pod) / does not have: the label of the
+	// max-event-size metric is that field's value / falls back to the source name
+	wantSource := "k8s/x.log"
+	switch which {
+	case 7:
+		st.SourceNameMetaField, wantSource = "k8s_pod", string(c15Item.PodName)
+	case 8:
+		st.SourceNameMetaField = "k8s_absent"
+	}
 	wantLabels := c15WantLabels(which)
 	p.Start(kc, c15Params(ctl, st))
+	defer func() { _ = catchMsg(p.Stop) }()
 
 	var roots []*insaneJSON.Root
 	var passed []*insaneJSON.Root
@@ -347,6 +382,7 @@ func c15ExecK8s(which int, cs hx.Sx) hx.Sx {
 			f := hx.Items(ch)
 			style, raw, size, esc := int(hx.Int(f[0])), hx.Bytes(f[1]), int(hx.Int(f[2])), hx.Bytes(f[3])
 			bufMode := style >> 2 & 3
+			missing := style >> 4 & 7 // 1 k8s_namespace, 2 k8s_pod, 3 k8s_container_id, 4 k8s_container not set (Fatalf unless only_node)
 			style &= 3
 			root = insaneJSON.Spawn()
 			roots = append(roots, root)
@@ -369,14 +405,22 @@ func c15ExecK8s(which int, cs hx.Sx) hx.Sx {
 				pcode = 9
 				break
 			}
-			root.AddFieldNoAlloc(root, "k8s_pod").MutateToString(string(c15Item.PodName))
-			root.AddFieldNoAlloc(root, "k8s_namespace").MutateToString(string(c15Item.Namespace))
-			root.AddFieldNoAlloc(root, "k8s_container").MutateToString(string(c15Item.ContainerName))
-			root.AddFieldNoAlloc(root, "k8s_container_id").MutateToString(string(c15Item.ContainerID))
+			if missing != 2 {
+				root.AddFieldNoAlloc(root, "k8s_pod").MutateToString(string(c15Item.PodName))
+			}
+			if missing != 1 {
+				root.AddFieldNoAlloc(root, "k8s_namespace").MutateToString(string(c15Item.Namespace))
+			}
+			if missing != 4 {
+				root.AddFieldNoAlloc(root, "k8s_container").MutateToString(string(c15Item.ContainerName))
+			}
+			if missing != 3 {
+				root.AddFieldNoAlloc(root, "k8s_container_id").MutateToString(string(c15Item.ContainerID))
+			}
 			e = &pipeline.Event{Root: root, Size: size, SourceName: "k8s/x.log", Buf: c15Buf(bufMode)}
 		}
 		before := append([]byte(nil), e.Buf...)
-		ctl.incs = 0
+		ctl.incs, ctl.lvs = 0, nil
 		var res pipeline.ActionResult
 		msg := catchMsg(func() { res = p.Do(e) })
 		if msg != "" {
@@ -401,6 +445,14 @@ func c15ExecK8s(which int, cs hx.Sx) hx.Sx {
 			pcode = 8 // the action may only append to event.Buf
 			break
 		}
+		for _, lv := range ctl.lvs {
+			if lv != wantSource {
+				pcode = 8 // the metric is labelled with the source name, or with source_name_meta_field's value when it is set and present
+			}
+		}
+		if pcode != 0 {
+			break
+		}
 		steps = append(steps, hx.L(hx.I(int(res)), hx.I(ctl.incs), hx.B(log), hx.Bool(cut)))
 	}
 	var late []hx.Sx
@@ -411,8 +463,11 @@ func c15ExecK8s(which int, cs hx.Sx) hx.Sx {
 }
 
 func c15Exec(which int, cs hx.Sx) hx.Sx {
-	if which >= 2 && which <= 5 {
+	switch {
+	case which >= 2 && which <= 5, which >= 7 && which <= 9:
 		return c15ExecK8s(which, cs)
+	case which == pjWhich:
+		return pjRun(cs)
 	}
 	return c15ExecJoin(which, cs)
 }
@@ -647,6 +702,7 @@ func c15Gen(c *hmain.Ctx) {
 		}
 		tpls[i] = t
 	}
+	rCfg := hx.NewRng(c.Seed*7919 + 15) // its own generator: the draws of the older streams stay what they were
 	for i := 0; i < 3000*c.Scale; i++ {
 		k := r.Range(1, 3)
 		perm := []int{0, 1, 2}
@@ -703,7 +759,17 @@ func c15Gen(c *hmain.Ctx) {
 			bt.step(e)
 			seq = append(seq, e)
 		}
-		c.Do("join-template", 1, hx.L(hx.L(hx.I(max), hx.List(negs, hx.Bool), hx.List(codes, hx.I)), hx.List(seq, jev.sx)), runs > 0)
+		// how the configuration is written (see c15ExecJoin): the deprecated single `template` field, or both fields
+		wire := append([]int(nil), codes...)
+		switch {
+		case len(codes) == 1 && rCfg.Chance(1, 3):
+			wire[0] += 3
+			w.Count("join_template_config_single_template_field")
+		case rCfg.Chance(1, 8):
+			wire[0] += 6
+			w.Count("join_template_config_both_fields")
+		}
+		c.Do("join-template", 1, hx.L(hx.L(hx.I(max), hx.List(negs, hx.Bool), hx.List(wire, hx.I)), hx.List(seq, jev.sx)), runs > 0)
 		w.Count(fmt.Sprintf("join_template_k%d", len(codes)))
 	}
 
@@ -712,7 +778,7 @@ func c15Gen(c *hmain.Ctx) {
 		if k.style < 0 {
 			return hx.I(0)
 		}
-		return hx.L(hx.I(k.style|k.buf<<2), hx.S(k.raw), hx.I(k.size), hx.S(k.esc))
+		return hx.L(hx.I(k.style|k.buf<<2|k.missing<<4), hx.S(k.raw), hx.I(k.size), hx.S(k.esc))
 	}
 	cri := func(raw string) kch {
 		return kch{style: 0, raw: raw, size: len(raw) + 40, esc: string(c15Escaped(0, []byte(raw)))}
@@ -896,6 +962,8 @@ type kch struct {
 	size  int
 	esc   string
 	buf   int // event.Buf mode (style bits 2-3)
+	// style bits 4-6: 1..4 = the event lacks k8s_namespace / k8s_pod / k8s_container_id / k8s_container
+	missing int
 }
 
 // the raw-level reading of the escaped fragment (checked oracle hypothesis, see trusted_base)
@@ -926,17 +994,62 @@ func c15EscOracle(raw, esc string) bool {
 
 func main() {
 	hmain.Run(&hmain.Prop{ID: "C15",
-		Rule: "join-exhaustive: every sequence over {start, continue, other, no-field, time-out} (time-outs only while busy) up to the tier's length (6 quick / 8 thorough) x max_event_size {0,4} x negate; join-any-timeouts: the same alphabet with unconstrained time-outs (len<=5); join-random / join-template: long sequences, real regexps / templates, oracle bits computed by the real matchers; k8s-exhaustive: every chunk sequence over 7 raw fragments + time-out x 5 configs; k8s-random, k8s-adversarial; thresholds: join-template-edges (lines ending exactly at the markers of the template matchers), join-/k8s-exhaustive-sample (quick tier: random sequences of the thorough tier's extra lengths 7-8 / 5), k8s-pooled-buf (event.Buf in use or with spare capacity, label filters), k8s-default-split (split_event_size 1000000 hit exactly and by one), k8s-huge-max (16 KiB chunks against max_event_size of 20000-65536 with and without cut-off), k8s-cut-escape (max_event_size 4..64 x 14 escape pieces x every offset of the cut limit inside the escaped sequence x with/without a buffered chunk x cut on/off, field on/off, a chunk that would fit again after the cut; plus random escape-heavy lines; every passed log must be a valid escaped JSON string). Non-trivial = the sequence contains at least one run start (join) / one partial chunk (k8s) and has >= 2-3 events; distinct = distinct (sub-model, case) text.",
+		Rule: "join-exhaustive: every sequence over {start, continue, other, no-field, time-out} (time-outs only while busy) up to the tier's length (6 quick / 8 thorough) x max_event_size {0,4} x negate; join-any-timeouts: the same alphabet with unconstrained time-outs (len<=5); join-random / join-template: long sequences, real regexps / templates, oracle bits computed by the real matchers; k8s-exhaustive: every chunk sequence over 7 raw fragments + time-out x 5 configs; k8s-random, k8s-adversarial; thresholds: join-template-edges (lines ending exactly at the markers of the template matchers), join-/k8s-exhaustive-sample (quick tier: random sequences of the thorough tier's extra lengths 7-8 / 5), k8s-pooled-buf (event.Buf in use or with spare capacity, label filters), k8s-default-split (split_event_size 1000000 hit exactly and by one), k8s-huge-max (16 KiB chunks against max_event_size of 20000-65536 with and without cut-off), k8s-cut-escape (max_event_size 4..64 x 14 escape pieces x every offset of the cut limit inside the escaped sequence x with/without a buffered chunk x cut on/off, field on/off, a chunk that would fit again after the cut; plus random escape-heavy lines; every passed log must be a valid escaped JSON string); coverage round: k8s-meta (events that lack a k8s_* meta field, source_name_meta_field present / absent: which 2, 7, 8), join-template also with the deprecated single `template` field / both fields, pipe-join (the REAL join / join_template plugin from its registered factory inside a real pipeline: 1-4 streams on 1-2 sources, 1-8 processors, match_mode and/or/and_prefix/or_prefix/none x match_invert x do_if on the action, feeder gaps longer than the event time-out; judged by Model/C15Pipe.v: delivery discipline, per-stream replay of the join state machine with idle-skip of rejected events, output and commits per stream), pipe-join-stop (Pipeline.Stop() while runs are held), pipe-split-hold (a split action left or right of a holding action: Spawn, its time-out tail, Break; which 51), pipe-stale-unblock / pipe-timeout-vs-put (directed schedules around stream.tryUnblock). Non-trivial = the sequence contains at least one run start (join) / one partial chunk (k8s) and has >= 2-3 events; distinct = distinct (sub-model, case) text.",
 		Gen: func(c *hmain.Ctx) {
 			c15Gen(c)
 			c15GenThresholds(c)
-			// processor-level clauses on the real pipeline: a busy action only sees events of the stream
-			// it holds (or a time-out), runs are flushed by the stream time-out, streams are never merged
-			pipedrv.GenFamilies(c, pipedrv.PipeWhich, []pipedrv.Fam{
-				{Stream: "pipe-hold", Opts: pipedrv.FamHold, N: 50},
-				{Stream: "pipe-two-holders", Opts: pipedrv.FamTwoHolders, N: 30},
-				{Stream: "pipe-discard-before-hold", Opts: pipedrv.FamDiscardBeforeHold, N: 30},
-			})
+			c15PipeFamilies(c)
+			// streams added from the coverage report: their own generators, so that the older streams keep their cases
+			c15GenCoverage(c, hx.NewRng(c.Seed*7919+16))
+			c15GenPipeJoin(c, hx.NewRng(c.Seed*7919+17))
 		},
 		Exec: pipedrv.WrapExec(c15Exec)})
+}
+
+// processor-level clauses on the real pipeline: a busy action only sees events of the stream it holds (or a time-out),
+// runs are flushed by the stream time-out, streams are never merged.  (pipedrv.GenFamilies with the directed schedules
+// added to the same concurrent batch.)
+// sub-model 51: pipeline cases in which children of a split reach a busy action (Model/C15Full.v: the single-stream
+// monitor counts a child, which has no stream of its own, as an event of the stream its processor is serving)
+const pipeKidsWhich = 51
+
+func c15PipeFamilies(c *hmain.Ctx) {
+	fams := []pipedrv.Fam{
+		{Stream: "pipe-hold", Opts: pipedrv.FamHold, N: 50},
+		{Stream: "pipe-two-holders", Opts: pipedrv.FamTwoHolders, N: 30},
+		{Stream: "pipe-discard-before-hold", Opts: pipedrv.FamDiscardBeforeHold, N: 30},
+	}
+	var jobs []*pipedrv.Job
+	for _, f := range fams {
+		for i := 0; i < f.N*c.Scale; i++ {
+			jobs = append(jobs, &pipedrv.Job{Stream: f.Stream, Case: pipedrv.GenCase(c.R, f.Opts)})
+		}
+	}
+	// processor.Spawn: a split action (Spawn + Break) left or right of the holding action; children that meet a busy
+	// action are held / collapsed and flushed by the time-out tail of Spawn (a second source of time-out events)
+	rSplit := hx.NewRng(c.Seed*7919 + 18)
+	for i := 0; i < 20*c.Scale; i++ {
+		jobs = append(jobs, &pipedrv.Job{Stream: "pipe-split-hold", Case: pipedrv.GenCase(rSplit, pipedrv.FamSplitFan)})
+	}
+	// directed schedules around the stream time-out (stream.tryUnblock): the heartbeat works on a stale copy of the
+	// blocked list (the stream was unblocked, and possibly blocked again, since), or races with a put: a time-out
+	// must reach only an action that is busy NOW (monitor 9), with event time-outs below and above the 200 ms heartbeat
+	for _, procs := range []int{1, 2} {
+		jobs = append(jobs,
+			&pipedrv.Job{Stream: "pipe-stale-unblock", Case: pipedrv.StaleUnblock(0, procs)},
+			&pipedrv.Job{Stream: "pipe-stale-unblock", Case: pipedrv.StaleUnblock(1, procs)},
+			&pipedrv.Job{Stream: "pipe-stale-unblock", Case: pipedrv.StaleUnblockT(procs-1, procs, 450)})
+	}
+	for i := 0; i < 4; i++ {
+		jobs = append(jobs, &pipedrv.Job{Stream: "pipe-timeout-vs-put", Case: pipedrv.TimeoutVsPut(2+2*(i%2), i < 2, i%2 == 0)})
+	}
+	pipedrv.RunJobs(jobs, 70)
+	for _, j := range jobs {
+		pipedrv.Stats(c.W.Count, j)
+		which := pipedrv.PipeWhich
+		if j.Stream == "pipe-split-hold" {
+			which = pipeKidsWhich
+		}
+		c.W.Case(j.Stream, which, j.Case, j.Obs, true)
+	}
 }
